@@ -31,6 +31,12 @@ What is extracted (whitelist templates; anything unexpected raises TemplateMisma
    places where PendingRequirement.compile adds a dependency, in source order, each resolved to its role
    (bindings / cells, both filtered by needsSampling; objects if `CanSee`; ego).  The Lean model of the
    construction of the tuple (Model/DepOrder.lean) is parametric in both orders.
+7. *Sample sites*: where the dependency graph walked by `Samplable.sampleAll` is built and iterated, judged by
+   the same tracker: the list `Samplable.__init__` hands to `super().__init__` (filled by `append` of the loop
+   variable under `isLazy(<loop variable>)` in a loop over `dependencies`), what `LazilyEvaluable.__init__`
+   stores in `self._dependencies`, the iterable of the loop of `Samplable.sample` that calls
+   `<child>.sample(subsamples)`, and the iterable of the loop of `Samplable.sampleAll` that calls `<q>.sample(..)`.
+   The model of the walk (Model/SampleOrder.lean) is parametric in the four kinds.
 """
 import ast
 
@@ -43,6 +49,8 @@ CHK = "src/scenic/core/sample_checking.py"
 UTL = "src/scenic/core/utils.py"
 VIS = "src/scenic/core/visibility.py"
 REG = "src/scenic/core/regions.py"
+DIST = "src/scenic/core/distributions.py"
+LAZY = "src/scenic/core/lazy_eval.py"
 
 ORDERED_CTORS = {"tuple", "list", "dict", "reversed", "enumerate", "zip", "iter"}
 UNORDERED_CTORS = {"set", "frozenset"}
@@ -606,6 +614,83 @@ def checker_shape():
     return True
 
 
+# --------------------------------------------------------------------------- graph construction and walk
+def _loops_sampling(fn):
+    """the `for` loops of fn whose body calls `<loop variable>.sample(...)`"""
+    out = []
+    for node in ast.walk(fn):
+        if isinstance(node, ast.For) and isinstance(node.target, ast.Name):
+            v = node.target.id
+            for sub in ast.walk(node):
+                if (isinstance(sub, ast.Call) and isinstance(sub.func, ast.Attribute) and sub.func.attr == "sample"
+                        and is_name(sub.func.value, v)):
+                    out.append(node)
+                    break
+    return out
+
+
+def sample_sites():
+    dist, lazy = load(DIST)[1], load(LAZY)[1]
+    sinit = get_def(dist, "Samplable.__init__", DIST)
+    linit = get_def(lazy, "LazilyEvaluable.__init__", LAZY)
+    samp = get_def(dist, "Samplable.sample", DIST)
+    sall = get_def(dist, "Samplable.sampleAll", DIST)
+    sites = []
+
+    def judge(name, tr, e):
+        tr.why = []
+        ok = tr.ordered(e)
+        sites.append((name, bool(ok), "; ".join(dict.fromkeys(tr.why))))
+        return bool(ok)
+
+    # Samplable.__init__: what is handed to LazilyEvaluable.__init__ as `dependencies`
+    supers = [n for n in ast.walk(sinit)
+              if isinstance(n, ast.Call) and isinstance(n.func, ast.Attribute) and n.func.attr == "__init__"
+              and isinstance(n.func.value, ast.Call) and is_name(n.func.value.func, "super")]
+    expect(len(supers) == 1 and len(supers[0].args) == 2 and not supers[0].keywords,
+           "Samplable.__init__: super().__init__(props, deps) changed")
+    passed = supers[0].args[1]
+    key = _key(passed)
+    expect(key is not None, f"Samplable.__init__: dependencies passed as `{_src(passed)}`")
+    appends = [n for n in ast.walk(sinit) if Tracker._mutates(n, key)]
+    expect(len(appends) == 1 and isinstance(appends[0], ast.Call) and appends[0].func.attr == "append"
+           and len(appends[0].args) == 1, f"Samplable.__init__: `{key}` is not filled by a single append")
+    tr = Tracker(sinit, params={"dependencies": True})
+    p, loopvar, guard = tr.parents.get(appends[0]), None, None
+    while p is not None and p is not sinit:
+        if isinstance(p, ast.If) and guard is None:
+            guard = p
+        if isinstance(p, ast.For):
+            expect(loopvar is None, "Samplable.__init__: nested loops around the append")
+            expect(isinstance(p.target, ast.Name) and is_name(p.iter, "dependencies"),
+                   f"Samplable.__init__: the append is not inside `for <dep> in dependencies` (`{_src(p.iter)}`)")
+            loopvar = p.target.id
+        p = tr.parents.get(p)
+    expect(loopvar is not None and is_name(appends[0].args[0], loopvar),
+           "Samplable.__init__: what is appended is not the loop variable")
+    expect(guard is not None and _src(guard.test) == f"isLazy({loopvar})" and not guard.orelse,
+           "Samplable.__init__: the append is not guarded by `isLazy(<dep>)` alone")
+    judge("samplable.init.deps", tr, passed)
+
+    # LazilyEvaluable.__init__: self._dependencies
+    judge("lazy.init.dependencies", Tracker(linit, params={"dependencies": True}),
+          _find_assign(linit, "self._dependencies"))
+
+    # Samplable.sample: the loop over the children
+    loops = _loops_sampling(samp)
+    expect(len(loops) == 1, "Samplable.sample: expected one loop sampling the children")
+    stored = {"self._conditioned._dependencies": True, "self._dependencies": True}
+    expect(any(k in _src(loops[0].iter) for k in stored),
+           f"Samplable.sample: the children are not taken from `_dependencies` (`{_src(loops[0].iter)}`)")
+    judge("samplable.sample.children", Tracker(samp, opaque=stored), loops[0].iter)
+
+    # Samplable.sampleAll: the loop over the roots
+    loops = _loops_sampling(sall)
+    expect(len(loops) == 1, "Samplable.sampleAll: expected one loop sampling the quantities")
+    judge("samplable.sampleAll.quantities", Tracker(sall, params={"quantities": True}), loops[0].iter)
+    return sites
+
+
 # --------------------------------------------------------------------------- output
 def extract():
     sites, terms, segs = order_sites()
@@ -615,7 +700,8 @@ def extract():
     checker_shape()
     roots = [n for n, o, _ in local if not o]
     return {"sites": sites, "local": local, "roots": roots, "why": {n: w for n, o, w in local if not o},
-            "terms": terms, "segments": segs, "sources": compile_sources(), "bracket": b, "le": le, "private": priv}
+            "terms": terms, "segments": segs, "sources": compile_sources(), "bracket": b, "le": le, "private": priv,
+            "sample_sites": sample_sites()}
 
 
 def _b(x):
@@ -631,12 +717,14 @@ def to_lean(d):
     local = ",\n    ".join(f"({_s(n)}, {_b(o)})" for n, o, _ in d["local"])
     why = "\n".join(f"--   {n}: {w}" for n, w in d["why"].items())
     priv = ",\n    ".join(f"({_s(n)}, {_b(o)})" for n, o, _ in d["private"])
+    samp = ",\n    ".join(f"({_s(n)}, {_b(o)})" for n, o, _ in d["sample_sites"])
+    swhy = "\n".join(f"--   {n}: {w}" for n, o, w in d["sample_sites"] if not o)
     terms = ", ".join(_s(t) for t in d["terms"])
     roots = ", ".join(_s(t) for t in d["roots"])
     segs = ", ".join("." + r for r in d["segments"])
     srcs = ", ".join("." + r for r in d["sources"])
     b = d["bracket"]
-    return f"""import ScenicModel.Model.DepOrder
+    return f"""import ScenicModel.Model.SampleOrder
 namespace Scenic.Gen
 open Scenic.Det
 
@@ -687,6 +775,22 @@ def detActivationLe : Bool := {_b(d['le'])}
 /-- internal sampling sites and whether they use a private, constant-seeded generator -/
 def detPrivateSites : List (String × Bool) :=
   [ {priv} ]
+
+/-- where the dependency graph walked by `Samplable.sampleAll` is built and iterated
+    (site, iteration order = insertion order) -/
+def detSampleSites : List (String × Bool) :=
+  [ {samp} ]
+{swhy}
+
+def detSampleSiteOrdered (name : String) : Bool := (detSampleSites.lookup name).getD false
+
+/-- the iteration kinds as the model of graph construction and of the walk takes them -/
+def detSampleKinds : SampleKinds :=
+  {{ initDeps := detSampleSiteOrdered "samplable.init.deps",
+    stored := detSampleSiteOrdered "lazy.init.dependencies",
+    children := detSampleSiteOrdered "samplable.sample.children",
+    quantities := detSampleSiteOrdered "samplable.sampleAll.quantities",
+    size := 8 }}
 end Scenic.Gen
 """
 
